@@ -25,6 +25,10 @@ pub struct Zone {
     pub types: Vec<(i32, bool, u8)>,
     pub footer: Option<Rule>,
     pub footer_text: String,
+    /// number of leap-second records to write (the reader skips them)
+    pub leaps: u32,
+    /// write standard/wall and UT/local indicators (one per type)
+    pub indicators: bool,
 }
 
 // ------------------------------------------------------------------ POSIX TZ string
@@ -270,7 +274,7 @@ fn read_block(b: &[u8], at: usize, time_size: usize) -> Option<(u8, Block)> {
 pub fn read_tzif(b: &[u8]) -> Option<Zone> {
     let (ver, v1) = read_block(b, 0, 4)?;
     match ver {
-        0 => Some(Zone { version: 1, transitions: v1.transitions, types: v1.types, footer: None, footer_text: String::new() }),
+        0 => Some(Zone { version: 1, transitions: v1.transitions, types: v1.types, footer: None, footer_text: String::new(), leaps: 0, indicators: false }),
         b'2' | b'3' => {
             let (_, v2) = read_block(b, v1.end, 8)?;
             let foot = &b[v2.end..];
@@ -279,7 +283,7 @@ pub fn read_tzif(b: &[u8]) -> Option<Zone> {
             }
             let text = std::str::from_utf8(&foot[1..foot.len() - 1]).ok()?.to_string();
             let footer = if text.is_empty() { None } else { Some(parse_posix_tz(&text, ver == b'3')?) };
-            Some(Zone { version: ver - b'0', transitions: v2.transitions, types: v2.types, footer, footer_text: text })
+            Some(Zone { version: ver - b'0', transitions: v2.transitions, types: v2.types, footer, footer_text: text, leaps: 0, indicators: false })
         }
         _ => None,
     }
@@ -315,7 +319,9 @@ fn write_block(out: &mut Vec<u8>, ver: u8, z: &Zone, time_size: usize, empty: bo
     out.extend([0u8; 15]);
     let desig: Vec<u8> = b"LMT\0STD\0DST\0".to_vec();
     let (trans, types): (&[(i64, usize)], &[(i32, bool, u8)]) = if empty { (&[], &z.types[..1]) } else { (&z.transitions, &z.types) };
-    for c in [0u32, 0, 0, trans.len() as u32, types.len() as u32, desig.len() as u32] {
+    let ind = if z.indicators && !empty { types.len() as u32 } else { 0 };
+    let leaps = if empty { 0 } else { z.leaps };
+    for c in [ind, ind, leaps, trans.len() as u32, types.len() as u32, desig.len() as u32] {
         out.extend(c.to_be_bytes());
     }
     for (t, _) in trans {
@@ -334,6 +340,17 @@ fn write_block(out: &mut Vec<u8>, ver: u8, z: &Zone, time_size: usize, empty: bo
         out.push(*a);
     }
     out.extend(desig);
+    for k in 0..leaps {
+        let t = 78_796_800i64 + 31_536_000 * k as i64;
+        if time_size == 4 {
+            out.extend((t as i32).to_be_bytes());
+        } else {
+            out.extend(t.to_be_bytes());
+        }
+        out.extend((k as i32 + 1).to_be_bytes());
+    }
+    out.extend(vec![0u8; ind as usize]); // standard/wall
+    out.extend(vec![0u8; ind as usize]); // UT/local
 }
 
 /// Serialise a zone as TZif version `z.version` (v2+: minimal v1 block, then the 64-bit block and footer).
